@@ -198,7 +198,21 @@ func (c CondJ) toOvs(db *DB) ovsdb.Condition {
 	return ovsdb.NewCondition(c.Col, ovsdb.ConditionFunction(c.Fn), ov)
 }
 
+// c08Step: an update applied to the cache after it was filled (the way a notification changes a row)
+type c08Step struct {
+	UUID string `json:"uuid"`
+	Row  Row    `json:"row"`
+}
+
+// the rows the caches of the current case start from and the updates that lead to its table (set by runC08
+// around its own buildCache calls; nil for the shrinker, which rebuilds from the final rows)
+var c08Initial map[string]Row
+var c08Steps []c08Step
+
 func buildCache(cfg idxConfig, table map[string]Row, order []string) (*DB, *cache.RowCache) {
+	if c08Initial != nil {
+		table = c08Initial
+	}
 	spec := SchemaSpec{Name: "db", Tables: []TableSpec{c05Table}}
 	spec.Tables[0].Indexes = cfg.schema
 	db, err := BuildDB(spec, cfg.clientIndexes())
@@ -217,6 +231,13 @@ func buildCache(cfg idxConfig, table map[string]Row, order []string) (*DB, *cach
 		nativeNilEmpty = false
 		if err := rc.Create(u, m, false); err != nil {
 			panic(err)
+		}
+	}
+	if c08Initial != nil {
+		for _, st := range c08Steps {
+			if _, err := rc.Update(st.UUID, db.NewModel("T", st.UUID, st.Row), false); err != nil {
+				panic(err)
+			}
 		}
 	}
 	return db, rc
@@ -336,7 +357,7 @@ func indexSnapshot(cfg idxConfig, rc *cache.RowCache) string {
 }
 
 func runC08(r *Run) {
-	r.Rule = "tables of 0-6 rows over table T (string, integer, optional string/integer, map, set columns) under two random index configurations; lists of 0-4 well-typed conditions over all columns incl. _uuid, values mostly taken from existing rows (sub-maps, permuted/extended sets); non-trivial = condition list that selects a proper non-empty subset of the rows; distinct by (rows, conditions)"
+	r.Rule = "tables of 0-6 rows over table T (string, integer, optional string/integer, map, set columns) under two random index configurations, half of the tables reached through updates in which a row takes over another row's values before that one moves on; lists of 0-4 well-typed conditions over all columns incl. _uuid, values mostly taken from existing rows (sub-maps, permuted/extended sets); non-trivial = condition list that selects a proper non-empty subset of the rows; distinct by (rows, conditions)"
 	n := 400
 	if r.Tier == "thorough" {
 		n = 5000
@@ -365,9 +386,37 @@ func runC08(r *Run) {
 				order = append(order, u)
 			}
 		}
+		// half of the tables are reached through updates: a row takes over the values of another one, which
+		// then moves on (in this order: the values are held by two rows for a moment, as they are when the
+		// rows of one notification are applied one by one)
+		var initial map[string]Row
+		var steps []c08Step
+		if len(order) >= 2 && r.Rng.Intn(2) == 0 {
+			initial = map[string]Row{}
+			for u, row := range table {
+				initial[u] = row
+			}
+			for k := 1 + r.Rng.Intn(2); k > 0; k-- {
+				pi := r.Rng.Perm(len(order))
+				a, b := order[pi[0]], order[pi[1]]
+				trial := map[string]Row{}
+				for u, row := range table {
+					trial[u] = row
+				}
+				trial[b], trial[a] = table[a], genC05Row(r.Rng)
+				if !schemaUnique(cfg, trial) {
+					continue
+				}
+				steps = append(steps, c08Step{b, trial[b]}, c08Step{a, trial[a]})
+				table = trial
+			}
+			r.Count(fmt.Sprintf("history-steps:%d", len(steps)))
+		}
+		c08Initial, c08Steps = initial, steps
 		db, rc := buildCache(cfg, table, order)
 		// the same rows without any index
 		_, rcPlain := buildCache(idxConfig{}, table, order)
+		c08Initial, c08Steps = nil, nil
 		var queries [][]CondJ
 		for q := 0; q < 8; q++ {
 			var conds []CondJ
@@ -427,6 +476,9 @@ func runC08(r *Run) {
 		idxBefore := indexSnapshot(cfg, rc)
 		for qi, conds := range queries {
 			cs := map[string]interface{}{"specs": cfg.specs, "rows": rowsJ, "conds": conds, "earlier_queries": queries[:qi]}
+			if len(steps) > 0 {
+				cs["initial_rows"], cs["then_updated"] = initial, steps
+			}
 			got, gerr := queryImpl(db, rc, conds)
 			// selecting rows is a read: the indexes of the cache must be what they were
 			if now := indexSnapshot(cfg, rc); now != idxBefore {
